@@ -96,6 +96,9 @@ type obs struct {
 
 const extraCalls = 3
 
+// a Next call that neither returns nor polls; the debug trace (fetch counting) formats the whole stack at every instruction
+var hangTimeout = map[bool]time.Duration{false: 10 * time.Second, true: 90 * time.Second}[fetchEnabled]
+
 func resOf(v any, ok bool, cc *countCtx) string {
 	if !ok {
 		return "done"
@@ -277,7 +280,7 @@ func runC07(c *Ctx) {
 	capPolls := 160 // M: the uncancelled recording is cut at this many polls (infinite programs)
 	ngen := c.N
 	if c.Tier != "quick" {
-		capPolls = 700
+		capPolls = 400
 	}
 	var ps []prog
 	if len(c.Args) > 0 { // replay: prog-hex:input-hex pairs are not needed, plain "src\tinput"
@@ -301,7 +304,7 @@ func runC07(c *Ctx) {
 	}
 	seen := map[string]bool{}
 	type result struct {
-		line  string
+		lines []string
 		viols []string
 		kinds []string
 	}
@@ -320,8 +323,8 @@ func runC07(c *Ctx) {
 		go func() { ch <- onProgram(p, input, capPolls) }()
 		select {
 		case r := <-ch:
-			if r.line != "" {
-				c.Emit("%s", r.line)
+			for _, l := range r.lines {
+				c.Emit("%s", l)
 			}
 			for _, v := range r.viols {
 				c.Violation("%s", v)
@@ -329,9 +332,9 @@ func runC07(c *Ctx) {
 			for _, k := range r.kinds {
 				c.Count(k)
 			}
-		case <-time.After(10 * time.Second):
+		case <-time.After(hangTimeout):
 			// a Next call that neither returns nor polls the context: the loop avoids the poll
-			c.Violation("hang\t%s\t%s\t-1\tNext did not return within 10s under a context cancelled at poll <= %d (a loop that does not poll ctx.Done())", p.src, p.input, capPolls)
+			c.Violation("hang\t%s\t%s\t-1\tNext did not return within %v under a context cancelled at poll <= %d (a loop that does not poll ctx.Done())", p.src, p.input, hangTimeout, capPolls)
 			c.Count("hang")
 			finishEarly(c)
 			return
@@ -379,7 +382,7 @@ func normalize(v any) any {
 }
 
 func onProgram(p prog, input any, capPolls int) (res struct {
-	line  string
+	lines []string
 	viols []string
 	kinds []string
 }) {
@@ -437,10 +440,20 @@ func onProgram(p prog, input any, capPolls int) (res struct {
 	if strings.Contains(trace.String(), "(e ") {
 		res.kinds = append(res.kinds, "error-midstream")
 	}
+	// the runs of one program are spread over several lines (each repeats the trace) to bound the line length
 	var runs strings.Builder
+	flush := func() {
+		if runs.Len() > 0 {
+			res.lines = append(res.lines, fmt.Sprintf("(c07 %s %s %d (trace%s) (runs%s))", Hexs([]byte(p.src)), Hexs([]byte(p.input)), npolls, trace.String(), runs.String()))
+			runs.Reset()
+		}
+	}
 	for k := 0; k <= limit; k++ {
 		out, _ := runOnce(p.src, cloneVal(input), true, k, maxCalls)
 		fmt.Fprintf(&runs, " (%d%s)", k, fmtObs(out))
+		if runs.Len() > 60000 {
+			flush()
+		}
 		for i, o := range out {
 			if o.res == "panic" {
 				viol("panic", k, "Next call %d panicked under cancellation at poll %d", i, k)
@@ -465,7 +478,7 @@ func onProgram(p prog, input any, capPolls int) (res struct {
 			viol("noctx", -1, "Run without a context returns [%s], with an uncancelled context [%s]", strings.Join(a, " "), strings.Join(b, " "))
 		}
 	}
-	res.line = fmt.Sprintf("(c07 %s %s %d (trace%s) (runs%s))", Hexs([]byte(p.src)), Hexs([]byte(p.input)), npolls, trace.String(), runs.String())
+	flush()
 	return
 }
 
